@@ -38,6 +38,13 @@ type PredSpec struct {
 	ParamTy map[string]string `json:"param_ty"` // Go param name -> Lean type
 	RetTy   map[string]string `json:"ret_ty"`   // method -> Lean return type (default Bool)
 	ConstNS string            `json:"const_ns"` // namespace for same-package constants
+	// ErrAsBool lists methods returning `error` that are translated to Bool:
+	// `return nil` ↦ true, `return fmt.Errorf(…)` / `errors.New(…)` ↦ false.
+	ErrAsBool []string `json:"err_as_bool"`
+	// ForceNow lists methods that get the `(now : Nat)` clock parameter even if their current body does not
+	// read the clock, so that a model calling them keeps compiling when a time check is dropped from the source
+	// (the correspondence run then shows the difference instead of a build failure).
+	ForceNow []string `json:"force_now"`
 }
 
 type SkelSpec struct {
@@ -92,7 +99,17 @@ type LocalSpec struct {
 	Cmps   []LocalCmp `json:"cmps"`
 }
 
+// CondSpec: the source text of every `if` condition of a function, in source order
+// (ties inline decision expressions that are not functions of their own).
+type CondSpec struct {
+	Dir  string `json:"dir"`
+	Recv string `json:"recv"`
+	Func string `json:"func"`
+	Name string `json:"name"` // Lean name
+}
+
 type Spec struct {
+	ExtSpec                 // additive kinds, see ext.go
 	Module      string      `json:"module"`       // output file Gen/<Module>.lean
 	Imports     []string    `json:"imports"`      // other Gen modules this one refers to
 	LeanImports []string    `json:"lean_imports"` // hand-written Lean modules (receiver structures of translated predicates)
@@ -103,6 +120,13 @@ type Spec struct {
 	Skels       []SkelSpec  `json:"skels"`
 	Routes      []RouteSpec `json:"routes"`
 	Flows       []FlowSpec  `json:"flows"` // control skeletons, see flow.go
+	// additive extensions, see tables.go
+	Enums        []EnumSpec    `json:"enums"`
+	SelSets      []SelSetSpec  `json:"selsets"`
+	CallArgs     []CallArgSpec `json:"callargs"`
+	Guards       []SkelSpec    `json:"guards"` // functions whose `if` conditions are emitted as source text (Gen.Guard.<name>)
+	Conds        []CondSpec    `json:"conds"`
+	ModelImports []string      `json:"model_imports"` // hand-written Model modules (receiver structures of translated predicates)
 }
 
 var fset = token.NewFileSet()
@@ -307,6 +331,15 @@ func leanStr(s string) string {
 	return strconv.Quote(s) // Go quoting of printable ASCII is Lean-compatible
 }
 
+// leanVar renames Go identifiers that are Lean keywords (e.g. the loop variable `prefix`).
+func leanVar(s string) string {
+	switch s {
+	case "prefix", "infix", "postfix", "end", "from", "at", "fun", "open", "section", "namespace", "instance", "deriving", "macro", "syntax":
+		return s + "_"
+	}
+	return s
+}
+
 func leanIdent(s string) string {
 	return strings.ReplaceAll(s, "-", "_")
 }
@@ -319,6 +352,7 @@ type predCtx struct {
 	recv    string // receiver variable name
 	locals  map[string]bool
 	methods map[string]bool
+	errBool bool // current method returns error, translated to Bool
 }
 
 func (c *predCtx) expr(e ast.Expr) string {
@@ -341,7 +375,7 @@ func (c *predCtx) expr(e ast.Expr) string {
 			return "none"
 		}
 		if e.Name == c.recv || c.locals[e.Name] {
-			return e.Name
+			return leanVar(e.Name)
 		}
 		if _, ok := c.p.consts[e.Name]; ok {
 			return c.spec.ConstNS + "." + e.Name
@@ -404,6 +438,9 @@ func (c *predCtx) expr(e ast.Expr) string {
 			// time.Now().After(x)  -> (now > x) ; time.Now().Before(x) -> (now < x)
 			if inner, ok := sel.X.(*ast.CallExpr); ok {
 				if is, ok := inner.Fun.(*ast.SelectorExpr); ok {
+					if pk, ok := is.X.(*ast.Ident); ok && pk.Name == "time" && is.Sel.Name == "Now" && len(e.Args) == 0 && sel.Sel.Name == "Unix" {
+						return "now" // time.Now().Unix(): the clock parameter, in seconds
+					}
 					if pk, ok := is.X.(*ast.Ident); ok && pk.Name == "time" && is.Sel.Name == "Now" && len(e.Args) == 1 {
 						a := c.expr(e.Args[0])
 						switch sel.Sel.Name {
@@ -454,6 +491,11 @@ func (c *predCtx) expr(e ast.Expr) string {
 var usesNowMemo = map[string]bool{}
 
 func (c *predCtx) usesNow(method string) bool {
+	for _, f := range c.spec.ForceNow {
+		if f == method {
+			return true
+		}
+	}
 	key := c.spec.NS + "." + method
 	if v, ok := usesNowMemo[key]; ok {
 		return v
@@ -531,6 +573,17 @@ func (c *predCtx) stmts(list []ast.Stmt, indent string) string {
 		if len(s.Results) != 1 {
 			die("pred %s: return with %d results", c.spec.NS, len(s.Results))
 		}
+		if c.errBool {
+			if id, ok := s.Results[0].(*ast.Ident); ok && id.Name == "nil" {
+				return indent + "true"
+			}
+			if ce, ok := s.Results[0].(*ast.CallExpr); ok {
+				if f := selStr(ce.Fun); f == "fmt.Errorf" || f == "errors.New" {
+					return indent + "false"
+				}
+			}
+			die("pred %s: unsupported error result %s", c.spec.NS, exprStr(s.Results[0]))
+		}
 		return indent + c.expr(s.Results[0])
 	case *ast.IfStmt:
 		if s.Init != nil {
@@ -554,6 +607,37 @@ func (c *predCtx) stmts(list []ast.Stmt, indent string) string {
 			c.locals[id.Name] = true
 			return indent + "let " + id.Name + " := " + v + "\n" + c.stmts(rest, indent)
 		}
+	case *ast.SwitchStmt:
+		// tagged switch whose clauses compare the tag with constants:
+		//   switch x { case A, B: return e1; default: return e2 }  ->  if (x == A || x == B) then e1 else e2
+		// a clause (or a missing default) that falls out of the switch continues with the rest
+		if s.Init != nil || s.Tag == nil {
+			die("pred %s: unsupported switch at %s", c.spec.NS, fset.Position(s.Pos()))
+		}
+		tag := c.expr(s.Tag)
+		var def []ast.Stmt
+		type arm struct {
+			cond string
+			body []ast.Stmt
+		}
+		var arms []arm
+		for _, cl := range s.Body.List {
+			cc := cl.(*ast.CaseClause)
+			if cc.List == nil {
+				def = cc.Body
+				continue
+			}
+			var alts []string
+			for _, v := range cc.List {
+				alts = append(alts, "("+tag+" == "+c.expr(v)+")")
+			}
+			arms = append(arms, arm{strings.Join(alts, " || "), cc.Body})
+		}
+		res := c.block(def, rest, indent+"  ")
+		for i := len(arms) - 1; i >= 0; i-- {
+			res = indent + "if " + arms[i].cond + " then\n" + c.block(arms[i].body, rest, indent+"  ") + "\n" + indent + "else\n" + res
+		}
+		return res
 	case *ast.RangeStmt:
 		// for _, p := range xs { if strings.HasPrefix(k, p) { return true } }  ->  if xs.any (hasPrefix k) then true else ...
 		if len(s.Body.List) == 1 {
@@ -564,7 +648,7 @@ func (c *predCtx) stmts(list []ast.Stmt, indent string) string {
 					cond := c.expr(is.Cond)
 					res := c.expr(rs.Results[0])
 					delete(c.locals, v)
-					return indent + "if (" + c.expr(s.X) + ").any (fun " + v + " => " + cond + ") then " + res + "\n" + indent + "else\n" + c.stmts(rest, indent+"  ")
+					return indent + "if (" + c.expr(s.X) + ").any (fun " + leanVar(v) + " => " + cond + ") then " + res + "\n" + indent + "else\n" + c.stmts(rest, indent+"  ")
 				}
 			}
 		}
@@ -588,6 +672,11 @@ func genPred(root string, ps *PredSpec, out *strings.Builder) {
 	fmt.Fprintf(out, "namespace %s\n", ps.NS)
 	for _, m := range ps.Methods {
 		c := &predCtx{p: p, spec: ps, locals: map[string]bool{}, methods: ms}
+		for _, eb := range ps.ErrAsBool {
+			if eb == m {
+				c.errBool = true
+			}
+		}
 		fd := c.lookup(m)
 		params := []string{}
 		if fd.Recv != nil && len(fd.Recv.List[0].Names) == 1 {
@@ -818,6 +907,48 @@ func genRoute(root string, rs *RouteSpec, out *strings.Builder) {
 	fmt.Fprintf(out, "  %s\n", leanStr(def))
 }
 
+// genConds emits the `if` conditions (and `x := <bool expr>` of && / || / comparison shape) of a function as source text.
+func genConds(root string, cs *CondSpec, out *strings.Builder) {
+	p := loadPkg(root, cs.Dir)
+	key := cs.Func
+	if cs.Recv != "" {
+		key = cs.Recv + "." + cs.Func
+	}
+	fd, ok := p.funcs[key]
+	if !ok {
+		die("conds: function %s not found in %s", key, cs.Dir)
+	}
+	src := func(e ast.Expr) string {
+		var sb strings.Builder
+		printer.Fprint(&sb, fset, e)
+		return strings.Join(strings.Fields(sb.String()), " ")
+	}
+	var conds []string
+	ast.Inspect(fd.Body, func(n ast.Node) bool {
+		switch n := n.(type) {
+		case *ast.IfStmt:
+			c := src(n.Cond)
+			if n.Init != nil {
+				var sb strings.Builder
+				printer.Fprint(&sb, fset, n.Init)
+				c = strings.Join(strings.Fields(sb.String()), " ") + "; " + c
+			}
+			conds = append(conds, leanStr(c))
+		case *ast.AssignStmt:
+			if len(n.Lhs) == 1 && len(n.Rhs) == 1 {
+				if be, ok := n.Rhs[0].(*ast.BinaryExpr); ok {
+					switch be.Op {
+					case token.LAND, token.LOR, token.EQL, token.NEQ:
+						conds = append(conds, leanStr(src(n.Lhs[0])+" := "+src(n.Rhs[0])))
+					}
+				}
+			}
+		}
+		return true
+	})
+	fmt.Fprintf(out, "def %s : List String := [%s]\n", cs.Name, strings.Join(conds, ", "))
+}
+
 func selStr(e ast.Expr) string {
 	switch e := e.(type) {
 	case *ast.Ident:
@@ -947,6 +1078,45 @@ func genLocals(root string, ls *LocalSpec, out *strings.Builder) {
 	fmt.Fprintf(out, "end %s\n\n", ls.NS)
 }
 
+// ---------------------------------------------------------------- guards
+
+// genGuards emits, in source order, the text of every `if` header (init; cond) and every
+// `range` expression of the function, so that a dropped or altered guard changes a Gen
+// definition that a theorem pins by `decide`.
+func genGuards(root string, ss *SkelSpec, out *strings.Builder) {
+	p := loadPkg(root, ss.Dir)
+	key := ss.Func
+	if ss.Recv != "" {
+		key = ss.Recv + "." + ss.Func
+	}
+	fd, ok := p.funcs[key]
+	if !ok {
+		die("guards: function %s not found in %s", key, ss.Dir)
+	}
+	src := func(n ast.Node) string {
+		var sb strings.Builder
+		if err := printer.Fprint(&sb, fset, n); err != nil {
+			die("guards: %v", err)
+		}
+		return strings.Join(strings.Fields(sb.String()), " ")
+	}
+	var conds []string
+	ast.Inspect(fd.Body, func(n ast.Node) bool {
+		switch st := n.(type) {
+		case *ast.IfStmt:
+			c := src(st.Cond)
+			if st.Init != nil {
+				c = src(st.Init) + "; " + c
+			}
+			conds = append(conds, leanStr("if "+c))
+		case *ast.RangeStmt:
+			conds = append(conds, leanStr("range "+src(st.X)))
+		}
+		return true
+	})
+	fmt.Fprintf(out, "def %s : List String := [%s]\n", ss.Name, strings.Join(conds, ", "))
+}
+
 // ---------------------------------------------------------------- main
 
 func writeIfChanged(path, content string) {
@@ -971,6 +1141,9 @@ func genModule(repo string, spec *Spec, outDir string) {
 	}
 	for _, im := range spec.LeanImports {
 		cs.WriteString("import " + im + "\n")
+	}
+	for _, im := range spec.ModelImports {
+		cs.WriteString("import TunnoxModel.Model." + im + "\n")
 	}
 	cs.WriteString("open Tunnox.PredPrelude\nnamespace Gen\n\n")
 	for i := range spec.Lits {
@@ -1001,6 +1174,8 @@ func genModule(repo string, spec *Spec, outDir string) {
 	for i := range spec.Locals {
 		genLocals(repo, &spec.Locals[i], &cs)
 	}
+	genTables(repo, spec, &cs)
+	genExt(repo, spec.Module, &spec.ExtSpec, &cs)
 	for i := range spec.Preds {
 		genPred(repo, &spec.Preds[i], &cs)
 	}
@@ -1021,6 +1196,22 @@ func genModule(repo string, spec *Spec, outDir string) {
 			genFlow(repo, &spec.Flows[i], &cs)
 		}
 		cs.WriteString("end Flow\n\n")
+	}
+	if len(spec.Guards) > 0 {
+		cs.WriteString("namespace Guard\n")
+		sort.SliceStable(spec.Guards, func(i, j int) bool { return spec.Guards[i].Name < spec.Guards[j].Name })
+		for i := range spec.Guards {
+			genGuards(repo, &spec.Guards[i], &cs)
+		}
+		cs.WriteString("end Guard\n\n")
+	}
+	if len(spec.Conds) > 0 {
+		cs.WriteString("namespace Cond\n")
+		sort.SliceStable(spec.Conds, func(i, j int) bool { return spec.Conds[i].Name < spec.Conds[j].Name })
+		for i := range spec.Conds {
+			genConds(repo, &spec.Conds[i], &cs)
+		}
+		cs.WriteString("end Cond\n\n")
 	}
 	cs.WriteString("end Gen\n")
 	writeIfChanged(filepath.Join(outDir, spec.Module+".lean"), cs.String())
